@@ -124,6 +124,9 @@ func parsePayload(content []byte) (jwt.MapClaims, error) {
 	if _, err := decoder.Token(); err != io.EOF {
 		return nil, errors.New("invalid character after top-level value")
 	}
+	if payload == nil {
+		return nil, errors.New("payload must be a JSON object")
+	}
 	return payload, nil
 }
 
